@@ -244,3 +244,56 @@ def run_body(ctx, body, inputs, kwargs, tol=None, known=None, validate_every=1, 
     if validate_every:
         validate(ctx, body, inputs, kwargs, actual, every=validate_every)
     return actual, expected
+
+
+# ---------------------------------------------------------------------------- helpers usable on proxies and on plain values
+
+def b2i(b):
+    return b._as_int() if isinstance(b, SymBool) else int(bool(b))
+
+
+def ite(c, a, b):
+    if isinstance(c, SymBool):
+        return shim._ite(c, a, b)
+    return a if c else b
+
+
+def band(*bs):
+    r = True
+    for b in bs:
+        if isinstance(b, SymBool) or isinstance(r, SymBool):
+            r = (r & b) if not isinstance(r, bool) else (b if r else False)
+        else:
+            r = bool(r) and bool(b)
+    return r
+
+
+def bor(*bs):
+    r = False
+    for b in bs:
+        if isinstance(b, SymBool) or isinstance(r, SymBool):
+            r = (r | b) if not isinstance(r, bool) else (True if r else b)
+        else:
+            r = bool(r) or bool(b)
+    return r
+
+
+def bneg(b):
+    return ~b if isinstance(b, SymBool) else (not bool(b))
+
+
+def sel(arr, idx, default=-2):
+    """arr[idx] for a possibly symbolic integer idx (ite chain over the capacity)"""
+    arr = np.asarray(unwrap(arr), dtype=object)
+    if not isinstance(idx, SymInt):
+        i = int(idx)
+        return arr[i] if 0 <= i < arr.shape[0] else default
+    res = default
+    for c in range(arr.shape[0] - 1, -1, -1):
+        res = ite(idx == c, arr[c], res)
+    return res
+
+
+def length(a):
+    from . import merge
+    return merge.sym_shape(a)[0] if isinstance(a, merge.CapArray) else np.asarray(unwrap(a)).shape[0]
